@@ -297,6 +297,11 @@ type View struct {
 
 	AddrPool []types.Address
 	HashPool []types.Hash
+
+	// LongLived views never change: the order in which the api serves a list is looked up once
+	LongLived bool
+	refMu     sync.Mutex
+	refCache  map[string][]string
 }
 
 // NewView scans the node. The node must not change afterwards.
@@ -386,6 +391,7 @@ func NewView(name string, n *sim.Node, users []types.Address, pillars []string, 
 		}
 	}
 	v.Apis = NewApis(n)
+	v.LongLived, v.refCache = longLived, map[string][]string{}
 	if longLived {
 		v.Srv = NewRPC(v.Apis, n.Chain)
 	} else {
